@@ -1,6 +1,6 @@
 (** * DecisionMaker.MakeDecision (lib/model/decision-maker.go, bias.go) *)
 From Coq Require Import ZArith Bool List String Ascii.
-From RDM Require Import Base.Num Base.Util Model.Data Model.Rank Model.Utility.
+From RDM Require Import Base.Num Base.Util Model.Data Model.Rank Model.Utility Model.Levels Model.Heuristics Model.Electre.
 Import ListNotations.
 Local Open Scope string_scope.
 
@@ -56,10 +56,18 @@ Section Pipeline.
     if String.eqb m m_ws then ws_parse (r_crits req) (r_mp req)
     else if String.eqb m m_owa then owa_parse (r_crits req) (r_mp req)
     else if String.eqb m m_choquet then choquet_parse (r_crits req) (r_mp req)
+    else if String.eqb m m_electre then electre_parse (r_crits req) (r_mp req)
+    else if String.eqb m m_majority then majority_parse (r_mp req)
+    else if String.eqb m m_aspect then aspect_parse (r_mp req)
+    else if String.eqb m m_satisfaction then satisfaction_parse (r_mp req)
     else Err EType.
 
   Definition evaluate (m : string) (e : env) (s : state) : res (list entry) :=
     if String.eqb m m_ws || String.eqb m m_owa || String.eqb m m_choquet then utility_evaluate s
+    else if String.eqb m m_electre then electre_evaluate s
+    else if String.eqb m m_majority then majority_evaluate e s
+    else if String.eqb m m_aspect then aspect_evaluate e s
+    else if String.eqb m m_satisfaction then satisfaction_evaluate e s
     else Err EType.
 
   Definition prepare (req : request) : res state :=
